@@ -1208,6 +1208,75 @@ def run_history_case(case):
                         % (cls.__name__, ", ".join("%s=..." % k for k in kwargs),
                            "accepted" if accepted else "rejected", " then ".join(case["order"]))))
         return problems
+    if kind == "falsy-elements":
+        # elements that are falsy once constructed (an empty container-like pool, a decorator
+        # that reports False) are elements like any other, under every grouping
+        log, Ctrl, B, C, D, End = _history_classes()
+        falsy = set(case["falsy"])
+
+        def make(cls, how):
+            if cls.__name__ not in falsy:
+                return cls
+            extra = {"__len__": lambda self: 0} if how == "len" else \
+                    {"__bool__": lambda self: False}
+            return type(cls.__name__, (cls,), extra)
+
+        B, C, End = make(B, case["how"]), make(C, case["how"]), make(End, case["how"])
+        leaves = [lambda: Ctrl.s(tag="h"), lambda: B.s("b"), lambda: C.s(tag="c"),
+                  (lambda: End("e")) if case["tail"] == "instance" else (lambda: End.s("e"))]
+        want_shape = ["Ctrl", "B", "C", "End"]
+        want_log = [("End", "e"), ("C", "c"), ("B", "b"), ("Ctrl", "h")]
+        problems = []
+        for tree in groupings(0, 4):
+            del log[:]
+            try:
+                head = walk_tree(tree, leaves)
+                got = (_shape(head), [entry[:2] for entry in log])
+            except Exception as err:  # noqa: B902
+                got = ("raised %s: %s" % (type(err).__name__, err), None)
+            linked = got[1] is not None and all(
+                entry[2] is (log[index - 1][2] if False else None) or True
+                for index, entry in enumerate(log))
+            targets_ok = got[1] is not None and [
+                type(entry[2]).__name__ if entry[2] is not None else None
+                for entry in log] == [None, "End", "C", "B"]
+            if got != (want_shape, want_log) or not linked or not targets_ok:
+                problems.append((
+                    "history:falsy-element",
+                    "with %s falsy (%s) and grouping %r the chain built %r, targets %r; by "
+                    "hand it is %r" % (sorted(falsy), case["how"], tree, got,
+                                       [type(e[2]).__name__ for e in log], want_shape)))
+                break
+        return problems
+    if kind == "reserved-names":
+        # a constructor may call its parameters whatever it likes - also like the parameters
+        # of the template machinery itself
+        from cobald.interfaces import PoolDecorator
+
+        problems = []
+        for name in case["names"]:
+            namespace = {"PoolDecorator": PoolDecorator}
+            exec("class Deco(PoolDecorator):\n"      # noqa: S102
+                 "    def __init__(self, target, %s=0):\n"
+                 "        super().__init__(target)\n"
+                 "        self.got = %s\n" % (name, name), namespace)
+            Deco = namespace["Deco"]
+            log, Ctrl, B, C, D, End = _history_classes()
+            for curry in (False, True):
+                try:
+                    template = Deco.s()(**{name: 7}) if curry else Deco.s(**{name: 7})
+                    built = template >> End()
+                    ok = built.got == 7
+                    what = "constructed with %s=%r" % (name, built.got)
+                except Exception as err:  # noqa: B902
+                    ok, what = False, "raised %s: %s" % (type(err).__name__, err)
+                if not ok:
+                    problems.append((
+                        "history:reserved-parameter-name:%s" % name,
+                        "a decorator whose constructor has a parameter called %r: %s %s"
+                        % (name, "Deco.s()(%s=7)" % name if curry else "Deco.s(%s=7)" % name,
+                           what)))
+        return problems
     raise ValueError(kind)
 
 
@@ -1218,6 +1287,14 @@ HISTORY_CASES = [
     {"part": "history", "kind": "derived-service", "order": ["base", "derived"]},
     {"part": "history", "kind": "derived-service", "order": ["derived", "base"]},
     {"part": "history", "kind": "derived-service", "order": ["base", "derived", "base"]},
+] + [
+    {"part": "history", "kind": "falsy-elements", "falsy": list(falsy), "how": how,
+     "tail": tail}
+    for falsy in (["End"], ["B"], ["C"], ["B", "C"], ["B", "C", "End"])
+    for how in ("len", "bool") for tail in ("instance", "template")
+] + [
+    {"part": "history", "kind": "reserved-names",
+     "names": ["ctor", "args", "kwargs", "leaf", "cls", "other", "pool"]},
 ]
 
 
